@@ -21,6 +21,10 @@ CLAIMED["C19"] = dict(level="exploration", ref="DESIGN.md section 4 C19",
    text="Seeded operation histories (set mapping/kwargs, nested with-blocks incl. exceptions inside, update_defaults, refresh, get, accepted and rejected device requests; '-'/'_' spellings; flat and dotted keys) on private containers and on the process-global store, stepped in lock-step against a dictionary reference model; the whole store is compared with the model after every operation. Sampling of histories with swarm-selected alphabets; a clean run is evidence for the explored histories only.",
    note="Trusts the reference model in qsim/props/c19.py (dask semantics documented in config.py docstrings). Generator restrictions (single-separator keys, fixed key roles, disjoint value pools, lone device requests) are listed in evidence assumptions. No GPU: device clauses are exercised as rejections plus the cpu spellings.",
    technique="deterministic history simulation: seeded operation sequences incl. rejected operations stepped against an executable reference model, ddmin-minimised replays")
+CLAIMED["C11"] = dict(level="exploration", ref="DESIGN.md section 4 C11",
+   text="Seeded operation histories over the whole public Vector API (creation with 1-3 fixed dims, cell/slice/fancy get and set incl. partial indices and Vector-valued sources, field arithmetic, flatten/set_flattened, add/remove fields, copy, metadata, a second independent vector, rejected operations) stepped against a reference model; every public read of every live vector is compared after every operation, structural invariants are asserted, and copy/independence is checked by mutating one object and diffing the other.",
+   note="Trusts the reference model in qsim/props/c11.py. Caller-side aliasing of cell arrays and the documented view semantics of slices are excluded (assumptions in evidence). Rejected multi-cell assignments are checked for invariants, not atomicity (the property states invariants).",
+   technique="deterministic history simulation: seeded operation sequences incl. rejected operations stepped against an executable reference model, ddmin-minimised replays")
 NA = {
  "C02": "single evaluation of a deterministic forward model at a known ground truth; no schedule, state, fault or persistence in the claim - a simulator would only be an input generator",
  "C06": "conservation laws of bin/fourier_resample/pad/crop as pure array->array maps (the operation-history aspect of the same methods is claimed under C03)",
@@ -33,7 +37,7 @@ NA = {
  "C17": "unwrapping is a deterministic function of field and mask; its merge order is fixed by the input, not by a scheduler",
  "C20": "range/monotonicity/inverse identities of stateless maps",
 }
-PENDING = {k: "claimed in DESIGN.md (section 4); its check is still under construction in this build session and therefore not yet registered" for k in ["C03","C04","C05","C09","C11","C18"]}
+PENDING = {k: "claimed in DESIGN.md (section 4); its check is still under construction in this build session and therefore not yet registered" for k in ["C03","C04","C05","C09","C18"]}
 
 def main():
     checks = []
